@@ -31,5 +31,23 @@ CHECKS["C14"] = {
     "note": "Trusted: vf/ref.py evaluator and numpy truth tables; the model's stored dict as ground truth for 'true' variables/degree. Reduced forms compared with tolerance 1e-9*sum|coef|.",
     "technique": "property-based testing: model-based (stateful) edit-history generation with Hypothesis, invariant-after-every-step and truth-table oracles, shrinking to replay JSON",
 }
+CHECKS["C11"] = {
+    "text": "Generated calls of the four annealers over every documented model type (dicts with unsorted/repeated labels, labelled types incl. stale bookkeeping, Matrix types with gaps), schedules, temperature ranges, initial states, orders, seeds; every returned result is judged by an independent evaluator (count, types, spin flag, state keys, domain, value == model(state), best == min, arguments unchanged). Exploration within bounded sizes (<=6 variables, degree <=5).",
+    "design_ref": "DESIGN.md section 4, C11",
+    "note": "Trusted: vf/ref.py evaluator; gcc -O2 build of the extension compiled from the working tree on every run. Float-coefficient models compared with tolerance 1e-9*sum|coef|, dyadic ones exactly.",
+    "technique": "property-based testing: Hypothesis-generated annealer calls judged by an independent reference evaluator (differential oracle), shrinking to replay JSON",
+}
+CHECKS["C12"] = {
+    "text": "Three generated sub-checks: (1) repeat-call equality under an integer seed; (2) zero-temperature schedules: no result above the initial value, and exact equality with a reference in-order sweep on tie-free Matrix instances; (3) positive temperatures: chi-square comparison (alpha 1e-9, confirmed on 3 further seeds) of 2*10^5 final states with the exact k-sweep distribution of reference single-spin Metropolis kernels for in-order and random visiting. Statistical exploration: power ~2% total variation per instance.",
+    "design_ref": "DESIGN.md section 4, C12",
+    "note": "Trusted: reference Metropolis transition matrices built from vf/ref.py energies (numpy), mpmath chi-square tail, plain build of the extension from the working tree. Ties at T=0 excluded (not pinned by the statement).",
+    "technique": "property-based testing: Hypothesis-generated models/schedules with a reference-model oracle (exact Markov-chain distribution, reference sweep) and a statistical goodness-of-fit test",
+}
+CHECKS["C17"] = {
+    "text": "Coverage-measured fuzzing of the C kernels through the Python API: Hypothesis generates sequences of 1..6 annealer calls skewed to index/buffer-stressing shapes, executed in one persistent child process against a clang ASan+UBSan build of the extension compiled from the working tree; sanitizer reports or abnormal death fail the case and are shrunk; C11's oracle runs on every result and history-dependent failures are reported. gcov line coverage of the five C files is measured and written to the evidence.",
+    "design_ref": "DESIGN.md section 4, C17",
+    "note": "Trusted: clang 14 sanitizer runtimes (ASan, UBSan incl. signed overflow, no-recover), LD_PRELOAD into stock CPython, detect_leaks=0. Not reachable: 32-bit size overflow needing > 8 GB.",
+    "technique": "fuzzing: Hypothesis-generated call sequences against an ASan/UBSan-instrumented build in a persistent worker, with shrinking; gcov-measured coverage",
+}
 for e in ENGINES:
     e["serves_properties"] = sorted(CHECKS)
